@@ -76,15 +76,31 @@ type c18Impl struct {
 	Leaked          map[string]int `json:"leaked"`          // goroutines of the repository by class at Close+35s
 	LeakedDetail    map[string]int `json:"leakedDetail"`    // the same by innermost function (diagnostic only)
 	SecondCloseErrs map[string]int `json:"secondCloseErrs"`
-	LeakedAfter2nd  map[string]int `json:"leakedAfter2nd"` // after a second Close + 12s (clean-up attempt)
-	BubbleEnded     bool           `json:"bubbleEnded"`    // every goroutine of the bubble ended and the child exited 0
-	Exit            string         `json:"exit"`           // how the child ended: ok | exit:N | timeout
-	WallMs          int64          `json:"wallMs"`         // real time the child took (diagnostic only)
-	ClosePanic      string         `json:"closePanic"`     // the value Close panicked with ("" = it returned)
-	FirstClose      map[string]int `json:"firstClose"`     // factory reuse: close errors of the first instance ("panic" included)
-	Progress        int            `json:"progress"`       // check-pipeline calls of the instance under test that completed before its Close
+	LeakedAfter2nd  map[string]int `json:"leakedAfter2nd"`       // after a second Close + 12s (clean-up attempt)
+	BubbleEnded     bool           `json:"bubbleEnded"`          // every goroutine of the bubble ended and the child exited 0
+	Exit            string         `json:"exit"`                 // how the child ended: ok | exit:N | timeout
+	WallMs          int64          `json:"wallMs"`               // real time the child took (diagnostic only)
+	ClosePanic      string         `json:"closePanic"`           // the value Close panicked with ("" = it returned)
+	FirstClose      map[string]int `json:"firstClose"`           // factory reuse: close errors of the first instance ("panic" included)
+	Progress        int            `json:"progress"`             // check-pipeline calls of the instance under test that completed before its Close
+	Trace           []c18Ev        `json:"trace,omitempty"`      // hook events of every recoverer, in log order (c18_trace_test.go)
+	TraceKinds      []string       `json:"traceKinds,omitempty"` // service kind per recoverer
 	Note            string         `json:"note,omitempty"`
 }
+
+// c18Ev is one hook event of a recoverer
+type c18Ev struct {
+	R  int    `json:"r"`  // recoverer (index in order of first appearance)
+	P  string `json:"p"`  // point
+	G  int    `json:"g"`  // goroutine (index in order of first appearance)
+	K  int    `json:"k"`  // outcome: error kind 0 nil / 1 other error / 2 errServiceStopped / 3 errServiceContextCancelled
+	At int    `json:"at"` // position in the one log of all recoverers
+	Pa int    `json:"pa"` // 1 + position of the previous event of the same goroutine (any recoverer); 0 = none
+}
+
+// c18TraceBegin is set by c18_trace_test.go (which needs the `verif` hooks of pkg/v3/service in /repo); without it
+// cases carry no trace and the driver tags them "untraced".  It returns a snapshot function of the log so far.
+var c18TraceBegin func() func() ([]c18Ev, []string)
 
 // helper goroutines owned by services: coordinator 2 cache GCs, runner 1 cache GC + WorkerGroup.run (runProcessing) + runQueuing
 const c18AuxMax = 5
@@ -161,6 +177,15 @@ func c18Case(t *testing.T, in c18Input, ck func(c18Impl)) {
 	ck(impl)
 	for i := 0; i < in.PreYields; i++ {
 		runtime.Gosched()
+	}
+	snap := func() ([]c18Ev, []string) { return nil, nil }
+	if c18TraceBegin != nil {
+		snap = c18TraceBegin()
+	}
+	ck0 := ck
+	ck = func(impl c18Impl) {
+		impl.Trace, impl.TraceKinds = snap()
+		ck0(impl)
 	}
 	var node *c18Sys
 	if in.Family == "v2" {
